@@ -20,10 +20,69 @@ def xvalidate (args : List String) : Option String := do
       some "mismatch halting check: EOI is shifted into a state other than the final one"
     else some "ok"
 
+/-- handler calls `E:o:e` of a printed trace, oldest first -/
+def errEvents (fields : List String) : List (Nat × Nat) :=
+  fields.filterMap fun f =>
+    match f.splitOn ":" with
+    | ["E", o, e] => do let o ← o.toNat?; let e ← e.toNat?; pure (o, e)
+    | _ => none
+
+def sortedOffs : List (Nat × Nat) → Bool
+  | a :: b :: rest => decide (a.1 ≤ b.1) && sortedOffs (b :: rest)
+  | _ => true
+
+/-- Property-level verdict on the implementation's answer to an `xrun` case (a disagreement with
+the model alone is not a violation). The clauses of C19 that can be read off one trace:
+no panic / no endless loop; handler offsets non-decreasing and inside the input; a returned syntax
+error was given to the handler; and — relative to the model, whose error-free runs are exactly the
+runs of the plain parser (`C19_recovery_transparent_run`) — an input on which the model reports a
+syntax error is not accepted silently, and an input the model accepts without any report is
+accepted without any report. -/
+def judgeXRun (goAns : List String) (rest : List String) : Option String := do
+  let (_, after) ← TmVerif.LRX.parseXTables rest
+  let endOff ← match after with
+    | [_, _, _, _, endOff] => endOff.toNat?
+    | _ => none
+  let model ← TmVerif.LRX.handleXRun rest
+  let mf := model.splitOn " "
+  let res := goAns.getLast?.getD ""
+  let errs := errEvents goAns
+  let merrs := errEvents mf
+  let mres := mf.getLast?.getD ""
+  if res == "panic" || res == "crash" || res == "loop" then
+    some "violates: the parser panicked or did not terminate"
+  else if !sortedOffs errs then
+    some "violates: the offsets reported to the error handler decrease"
+  else if errs.any (fun p => decide (endOff < p.1) || decide (endOff < p.2) || decide (p.2 < p.1)) then
+    some "violates: a reported error lies outside the input"
+  else
+    match res.splitOn ":" with
+    | ["err", o, e] =>
+      if errs.getLast? != (do let o ← o.toNat?; let e ← e.toNat?; pure (o, e)) then
+        some s!"violates: the returned syntax error {o}:{e} was not given to the error handler (last handler call: {repr errs.getLast?})"
+      else if merrs.isEmpty && mres == "ok" then
+        some "violates: a sentence (the plain parser accepts it without any report) is rejected"
+      else some "holds"
+    | _ =>
+      if res == "ok" && errs.isEmpty && (!merrs.isEmpty || mres.startsWith "err") then
+        some s!"violates: the input has a syntax error (the model reports {repr merrs}) but the parser accepted it without calling the error handler"
+      else if res == "ok" && !errs.isEmpty && merrs.isEmpty && mres == "ok" then
+        some "violates: an error is reported on a sentence (the plain parser accepts it without any report)"
+      else some "holds"
+
 /-- `xrun …` : the extended runtime model's listener/error-handler trace (see Model/LRXProto.lean). -/
 def handle (args : List String) : Option String :=
   match args with
   | "xrun" :: rest => TmVerif.LRX.handleXRun rest
   | "xvalidate" :: rest => xvalidate rest
+  | "judge" :: rest =>
+    match rest.span (· != "::") with
+    | (goAns, "::" :: "xrun" :: case) => judgeXRun goAns case
+    | (_, "::" :: "xvalidate" :: case) =>
+      match xvalidate case with
+      | some "ok" => some "holds"
+      | some v => some s!"violates: {v}"
+      | none => none
+    | _ => none
   | _ => none
 end TmVerif.DriverC19
